@@ -295,7 +295,7 @@ class OnlineVariance(object):
                     average += avg*cnt
         average/=size
         #print('AVERGAE',average)
-        counts = np.array(counts) * size/np.sum(counts)
+        counts = np.array(counts) * (size/np.sum(counts))
 
         squares = None
 
